@@ -10,6 +10,7 @@ mod probe;
 mod props;
 mod refmp4;
 mod replay;
+mod shapes;
 mod worker;
 
 #[global_allocator]
@@ -24,6 +25,14 @@ fn usage() -> ! {
 
 fn main() {
     install_panic_hook();
+    // a panic of the harness itself is a machinery failure (exit 2), never a verdict
+    match common::guard(real_main) {
+        Ok(()) => {}
+        Err(p) => common::machinery_failure(&format!("harness panicked: {}", p)),
+    }
+}
+
+fn real_main() {
     let args: Vec<String> = std::env::args().collect();
     if args.len() < 3 {
         usage();
